@@ -346,6 +346,22 @@ def check_error_surfacing(ctx):
                       detail="%s: unset exit stores the caught LenaKeyError [%s]" % (qual, p.describe()),
                       construct="exit:" + p.describe(), path=p)
         ctx.instances_floor("C13-d/%s" % qual, n, 1, "exits that leave _static_context unset")
+    # an unresolvable key surfaces when the context is *requested*: the sequence's setter records the failure of an
+    # element's _set_context and returns normally (LenaSplit._set_context relies on that to reach the sibling branches)
+    fn = ctx.tree.func("lena.core.lena_sequence", "LenaSequence._set_context")
+    n_set = 0
+    for p in P.paths_of(fn):
+        for i, e in enumerate(p.ev):
+            if e[0] == "partial" and any(isinstance(c, ast.Call) and isinstance(c.func, ast.Attribute)
+                                         and c.func.attr == "_set_context" for c in A.walk_local(e[1])):
+                if i + 1 < len(p.ev) and p.ev[i + 1][0] == "exc":
+                    n_set += 1
+                    ctx.check("C13-d", p.end != "raise", fn, "LenaSequence._set_context re-raises the LenaKeyError of an element's "
+                              "_set_context [%s]: the error must be recorded and surface when the context is requested; raising here "
+                              "aborts LenaSplit._set_context, so the sibling branches after the failing one never receive the "
+                              "enclosing context" % p.describe(), detail="failure of el._set_context is recorded, the setter returns",
+                              construct="set-failure-raises", path=p)
+    ctx.instances_floor("C13-d/set-failure", n_set, 1, "handler paths of el._set_context")
     for modname, qual in (("lena.core.lena_sequence", "LenaSequence._get_context"),
                           ("lena.meta.elements", "SetContext._get_context")):
         fn = ctx.tree.func(modname, qual)
@@ -486,6 +502,8 @@ VARIANTS = [
     M("storecontext-alias", "lena/meta/elements.py", "self.context = deepcopy(context)", "self.context = context", ["C13-c"]),
     M("exc-not-stored", "lena/core/lena_sequence.py", "                    self._exc = exc\n                    return",
       "                    return", ["C13-d"]),
+    M("set-failure-raises", "lena/core/lena_sequence.py", "                    self._exc = exc\n                    return",
+      "                    self._exc = exc\n                    raise exc", ["C13-d"]),
     M("ucfs-no-copy", "lena/meta/elements.py", "update_recursively(context, deepcopy(self._context))",
       "update_recursively(context, self._context)", ["C13-e"]),
     M("makefilename-leak", "lena/output/make_filename.py", "                update = {\"output\": {key: res}}\n",
